@@ -47,6 +47,27 @@ def tags_of(files, op):
         stored = {n.id for n in ast.walk(fn) if isinstance(n, ast.Name) and isinstance(n.ctx, ast.Store)}
         if len(same) > 1 and rnames & stored:
             tags.add("similar-occurrences-with-rebound-operands-share-one-value")
+    if is_expr and op["api"] == "extract_variable":
+        # the new assignment is placed in front of the statement holding the region (or the first similar
+        # occurrence): when that 'statement' is an elif / else clause the if-chain is cut in two
+        def chain_clauses(node, first=True):
+            out = []
+            if not first:
+                out.append(node.test)
+            if len(node.orelse) == 1 and isinstance(node.orelse[0], ast.If) and node.orelse[0].col_offset == node.col_offset:
+                out += chain_clauses(node.orelse[0], False)
+            return out
+
+        regions = [(a, b)]
+        if op.get("similar"):
+            want = ast.dump(ast.parse(region.strip(), mode="eval").body)
+            regions += [_span(starts, n) for n in ast.walk(tree) if isinstance(n, ast.expr) and not isinstance(getattr(n, "ctx", None), (ast.Store, ast.Del)) and ast.dump(n) == want]
+        for n in ast.walk(tree):
+            if isinstance(n, ast.If):
+                for test in chain_clauses(n):
+                    ta, tb = _span(starts, test)
+                    if any(ta <= ra and rb <= tb for ra, rb in regions):
+                        tags.add("elif-condition-extracted-as-variable")
     if is_expr:
         for n in ast.walk(tree):
             if isinstance(n, (ast.ListComp, ast.SetComp, ast.DictComp, ast.GeneratorExp)) and inside(n) and _span(starts, n) != (a, b):
